@@ -16,17 +16,17 @@ Open Scope Z_scope.
 
 (* every decoder — v2 transaction bodies (json.Unmarshal + TransactionRequest.ToCore + Postings.Validate), ScriptV1.ToCore,
    bulk bodies (BulkElement.UnmarshalJSON for the four actions), metadata bodies, and the v1 Script (json.Unmarshal + Script.ToCore)
-   — is total without panic, for every JSON tree and every timestamp parser.  Structural: no bound on depth, width or magnitude. *)
-Theorem C38_total : forall (parse_time : string -> option Z) (body : ajson),
-  decode_v2_tx parse_time body <> Panic /\
-  decode_scriptv1 body <> Panic /\
+   — is total without panic, for every JSON tree, every timestamp parser and every spelling of non-integer literals.  Structural: no bound on depth, width or magnitude. *)
+Theorem C38_total : forall (parse_time : string -> option Z) (spell : Z -> Z -> string) (body : ajson),
+  decode_v2_tx parse_time spell body <> Panic /\
+  decode_scriptv1 spell body <> Panic /\
   decode_bulk parse_time body <> Panic /\
   dec_metadata body <> Panic /\
   decode_v1_script body <> Panic.
 Proof.
-  intros pt j. repeat split.
-  - exact (decode_v2_tx_no_panic pt j).
-  - exact (decode_scriptv1_no_panic j).
+  intros pt sp j. repeat split.
+  - exact (decode_v2_tx_no_panic pt sp j).
+  - exact (decode_scriptv1_no_panic sp j).
   - exact (decode_bulk_no_panic pt j).
   - exact (dec_metadata_no_panic j).
   - exact (decode_v1_script_no_panic j).
@@ -35,14 +35,14 @@ Print Assumptions C38_total.
 
 (* no effect: whatever the body, an answer that is not a success leaves all seven tables unchanged (frame theorem of C07 for
    the controller's errors; a body rejected by the decoder performs no store call at all, so the whole state is untouched) *)
-Theorem C38_no_effect : forall pt f now s body ik dry s' a,
-  handle_v2_create pt f now s body ik dry = (s', a) ->
+Theorem C38_no_effect : forall pt sp f now s body ik dry s' a,
+  handle_v2_create pt sp f now s body ik dry = (s', a) ->
   match a with Answered (ROk _ _ _) => True | _ => tables s' = tables s end.
 Proof. exact handle_error_no_effect. Qed.
 Print Assumptions C38_no_effect.
 
-Theorem C38_rejected_before_store : forall pt f now s body ik dry s' e,
-  handle_v2_create pt f now s body ik dry = (s', Rejected e) -> s' = s /\ decode_v2_tx pt body = ClientError e.
+Theorem C38_rejected_before_store : forall pt sp f now s body ik dry s' e,
+  handle_v2_create pt sp f now s body ik dry = (s', Rejected e) -> s' = s /\ decode_v2_tx pt sp body = ClientError e.
 Proof. exact handle_rejected_identity. Qed.
 Print Assumptions C38_rejected_before_store.
 
@@ -54,11 +54,12 @@ Definition ex_body (asset amount ts : ajson) : ajson :=
 Definition ex_feat := {| f_moves := true; f_pcev := true; f_acc_hist := true; f_tx_hist := true; f_hash := true |}.
 Example C38_example :
   let pt := fun _ : string => Some 5 in
-  (exists s', handle_v2_create pt ex_feat 10 init_state (ex_body (AJStr "USD/2") (AJNum 18446744073709551617 None) (AJStr "t")) "" false
+  let sp := fun _ _ : Z => "?" in
+  (exists s', handle_v2_create pt sp ex_feat 10 init_state (ex_body (AJStr "USD/2") (AJNum 18446744073709551617 None) (AJStr "t")) "" false
               = (s', Answered (ROk 1 (Some 1) false))) /\
-  handle_v2_create pt ex_feat 10 init_state (ex_body (AJStr "usd") (AJNum 1 None) AJNull) "" false = (init_state, Rejected EValidation) /\
-  handle_v2_create pt ex_feat 10 init_state (ex_body (AJStr "USD") (AJStr "1") AJNull) "" false = (init_state, Rejected EDecode) /\
-  handle_v2_create pt ex_feat 10 init_state (ex_body (AJStr "USD") (AJNum 1 None) (AJNum 1700000000 None)) "" false = (init_state, Rejected EDecode).
+  handle_v2_create pt sp ex_feat 10 init_state (ex_body (AJStr "usd") (AJNum 1 None) AJNull) "" false = (init_state, Rejected EValidation) /\
+  handle_v2_create pt sp ex_feat 10 init_state (ex_body (AJStr "USD") (AJStr "1") AJNull) "" false = (init_state, Rejected EDecode) /\
+  handle_v2_create pt sp ex_feat 10 init_state (ex_body (AJStr "USD") (AJNum 1 None) (AJNum 1700000000 None)) "" false = (init_state, Rejected EDecode).
 Proof. cbv zeta. split; [eexists; vm_compute; reflexivity|]. repeat split; vm_compute; reflexivity. Qed.
 
 (* the former refutation witness {"plain":…,"vars":{"x":1}} of v1 Script.ToCore is a client error on the repaired code; well-formed
